@@ -40,6 +40,10 @@ EXECS = [
 # demands more than the property states (it speaks of commands that ARE delegated).  Control oracle instead:
 # such a line is never approved, whatever the inner command.
 NOT_DELEGATED = ["docker container exec c", "podman container exec c", "docker compose exec svc"]
+# a short option of exec with its value attached, the value ending in (or being) a letter that is itself an option of
+# exec: -eDEBUG=true, -w/var/www, -uwww, -itw/home/me (docker/podman: e u w take a value; kubectl: c n)
+ATTACHED = [f"{tool} exec -{pre}{L}{val}{M} c" for tool in ("docker", "podman") for pre in ("", "it") for L in "euw" for val in ("x", "A=", "/v/") for M in "euwitd"] \
+    + [f"kubectl exec pod -{pre}{L}{val}{M} --" for pre in ("", "it") for L in "cn" for val in ("x", "m-") for M in "cnitq"]
 INNER_PLAIN = ["ls", "ls -la", "cat f", "echo hi", "git status", "okcmd a", "rm x", "git push", "frobnicate a", "askcmd", "zap", "zap a b",
                "sh -c ls", "sh -c 'rm x'", "bash -c 'zap'", "env ls", "env rm x", "timeout 5 ls", "nice zap", "time rm x", "xargs ls",
                "sh -c 'ls; zap'", "X=1 zap", "command -- git push", "nohup frobnicate a", "ls --help", "frobnicate --help",
@@ -88,7 +92,7 @@ def run(tier, seed, replay=None):
         if mv != iv:
             out.disagreements.append({"correspondence": "Walker.analyze_nodes <-> analyzer.analyze", "program": text, "model": mv, "impl": iv})
 
-    execs = EXECS if tier == "thorough" else EXECS[::2]
+    execs = (EXECS + ATTACHED) if tier == "thorough" else (EXECS[::2] + ATTACHED[seed % 5::5])
     # (a) inner judged as locally
     for e, inner in itertools.product(execs, INNER_PLAIN):
         text = f"{e} {inner}"
